@@ -173,13 +173,17 @@ func init() {
 					defer wg.Done()
 					defer func() {
 						if r := recover(); r != nil {
-							res[w] = []string{"panic"}
+							res[w] = []string{"panic:" + strings.ReplaceAll(strings.ReplaceAll(fmt.Sprint(r), ",", ";"), " ", "_")}
 						}
 					}()
 					out := make([]string, len(ins))
 					for round := 0; round < 3; round++ {
 						for k := range ins {
-							i := (k*7 + w*13 + round) % len(ins)
+							// a rotation (always a bijection, whatever the batch size) in a direction that depends on the worker
+							i := (k + w*13 + round*7) % len(ins)
+							if w%2 == 1 {
+								i = len(ins) - 1 - i
+							}
 							d := compileDigest(ins[i])
 							if out[i] == "" {
 								out[i] = d
@@ -196,8 +200,10 @@ func init() {
 			for i := range ins {
 				final[i] = res[0][i%len(res[0])]
 				for w := 1; w < workers; w++ {
-					if len(res[w]) != len(ins) || res[w][i] != final[i] {
-						final[i] = "nondet"
+					if len(res[w]) != len(ins) {
+						final[i] = "nondet(" + res[w][0] + ")"
+					} else if res[w][i] != final[i] && !strings.HasPrefix(final[i], "nondet") {
+						final[i] = "nondet[" + final[i] + "/" + res[w][i] + "]"
 					}
 				}
 			}
